@@ -25,6 +25,8 @@ func init() {
 			{ID: "R03c", Floor: 2, Doc: "identity gate and CID-size gate dominate the record append in LoadIndex", Run: ruleR03c},
 			{ID: "R03e", Floor: 1, Doc: "end-of-payload test compares the payload-relative position with DataSize", Run: ruleR03e},
 			{ID: "R03f", Floor: 2, Doc: "the insertion index never replaces an entry (its ordering is by digest only): Load/InsertNoReplace use llrb.InsertNoReplace", Run: ruleR03f},
+			{ID: "R03g", Floor: 1, Doc: "InsertionIndex.GetAll offers every record with the key's digest", Run: ruleR03g},
+			{ID: "R03h", Floor: 1, Doc: "records loaded into the index once, after the scan", Run: ruleR03h},
 			{ID: "R03d", Floor: 2, Doc: "discardingReadSeekerPlusByte: every byte source (ReadByte, Seek's discard) reads through the counting Read, which adds exactly the returned count", Run: ruleR03d},
 		},
 	})
@@ -275,6 +277,10 @@ func checkRecordedOffsets(c *Ctx, r *Report, fn *ssa.Function, rebase bool) {
 		v := canon(rec.v)
 		if !precedes(v, lr) {
 			r.Viol(key, c.Pos(rec.at.Pos()), "the recorded offset is computed after this section's length prefix was read: it is not the position where the section starts")
+			return
+		}
+		if phi, isPhi := v.(*ssa.Phi); isPhi && phiCarriesItself(phi) {
+			r.Viol(key, c.Pos(rec.at.Pos()), "the section offset can be carried into the next iteration unchanged (some path of the loop skips the position update, e.g. when the remaining length is 0): the next section is recorded at a stale offset")
 			return
 		}
 		nSeek := 0
@@ -610,4 +616,96 @@ func ruleR03f(c *Ctx, r *Report) {
 		})
 	}
 	r.Count("llrb insertions in package index", nIns)
+}
+
+// phiCarriesItself: some input of the loop phi is (through other phis) the phi itself.
+func phiCarriesItself(loop *ssa.Phi) bool {
+	seen := map[ssa.Value]bool{}
+	var walk func(v ssa.Value, top bool) bool
+	walk = func(v ssa.Value, top bool) bool {
+		v = canon(v)
+		if !top && v == ssa.Value(loop) {
+			return true
+		}
+		if seen[v] {
+			return false
+		}
+		seen[v] = true
+		if p, ok := v.(*ssa.Phi); ok {
+			for _, e := range p.Edges {
+				if walk(e, false) {
+					return true
+				}
+			}
+		}
+		return false
+	}
+	return walk(loop, true)
+}
+
+// ruleR03g: InsertionIndex.GetAll enumerates every record with the key's digest:
+// its ascend callback stops (returns false) only on a digest mismatch or when the
+// consumer's callback says so.
+func ruleR03g(c *Ctx, r *Report) {
+	fn, err := c.Func(pkgIndex, "InsertionIndex", "GetAll")
+	if err != nil {
+		r.InfraFail("%v", err)
+		return
+	}
+	key := "getall-enumerates@" + fnKey(fn)
+	if len(fn.AnonFuncs) != 1 {
+		r.Undec(key, c.Pos(fn.Pos()), "iterator closure not found")
+		return
+	}
+	it := fn.AnonFuncs[0]
+	isDigest := func(v ssa.Value) bool {
+		fv, _ := fieldOfLoad(canon(v))
+		return fv != nil && fv.Name() == "digest"
+	}
+	mismatch := condEdges(it, matchCallCond("bytes", "", "Equal", false, func(cl *ssa.Call) bool {
+		return isDigest(cl.Call.Args[0]) && isDigest(cl.Call.Args[1])
+	}))
+	bad := ""
+	if len(mismatch) == 0 {
+		bad = "the iterator has no digest comparison"
+	}
+	reachable := reach(it, nil, edgeSet(mismatch))
+	for _, ret := range returnsOf(it) {
+		v := canon(ret.Results[0])
+		if b, ok := constBool(v); ok {
+			if !b && reachable[ret.Block()] {
+				bad = fmt.Sprintf("the iterator stops at %s for a record that HAS the key's digest: later records with that digest (duplicates, the same digest under another hash code) are never offered to the caller", c.Pos(ret.Pos()))
+			}
+			continue
+		}
+		// the consumer callback's verdict
+		if cl, _ := callOf(v); cl == nil || cl.Common().StaticCallee() != nil || cl.Common().IsInvoke() {
+			bad = "the iterator returns something other than a constant or the consumer's verdict"
+		}
+	}
+	r.Check(bad == "", key, c.Pos(it.Pos()), "stops only on digest mismatch or when the consumer stops", bad)
+}
+
+// ruleR03h: LoadIndex hands the collected records to idx.Load once, after the scan:
+// Load of the sorted index types replaces what was loaded before.
+func ruleR03h(c *Ctx, r *Report) {
+	fn, err := c.Func(modV2, "", "LoadIndex")
+	if err != nil {
+		r.InfraFail("%v", err)
+		return
+	}
+	key := "load-once@" + fnKey(fn)
+	var loads []ssa.Instruction
+	eachInstr(fn, func(in ssa.Instruction) {
+		if ci, ok := in.(*ssa.Call); ok && ci.Common().IsInvoke() && ci.Common().Method.Name() == "Load" {
+			loads = append(loads, in)
+		}
+	})
+	bad := ""
+	if len(loads) != 1 {
+		bad = fmt.Sprintf("expected exactly one idx.Load call, found %d", len(loads))
+	} else if instrReaches(loads[0], loads[0]) {
+		bad = "idx.Load is called inside the scan loop: the sorted index types rebuild their buckets on every Load, so all but the last batch are lost"
+	}
+	r.Check(bad == "", key, c.Pos(fn.Pos()), "one idx.Load(records) after the scan", bad)
 }
